@@ -34,14 +34,15 @@ CFG = {  # mode -> harness/model parameters
                   mc="MC_Store_%s.cfg", sim="Sim_Store.cfg", depth=14, num=(100, 600),
                   devs={"KeyAliasing": "C17_SameObs", "DeleteKeepsOffsets": "C17_SameObs", "CloneDropsTimeouts": "C17_SameObs",
                         "EtcdListOmitsSlash": "C17_SameObs", "EtcdPartsOrder": "C17_SameObs",
-                        "StoreEscapeFastPath": "C17_SameObs", "EtcdDeletePrefix": "C17_SameObs"}),
+                        "StoreEscapeFastPath": "C17_SameObs", "EtcdDeletePrefix": "C17_SameObs",
+                        "StaleNextOffset": "C17_SameObs", "GrowSameCountOk": "C17_SameObs"}),
     "coord": dict(parts=2, pkg="./pkg/broker/", target="pkg/broker/zz_verif_store_coord_test.go", src="coord_verif_test.go", test="TestVerifStoreCoordReplay",
                   mc="MC_Store_coord_%s.cfg", sim="Sim_Store_coord.cfg", depth=10, num=(50, 250),
                   devs={"FetchDefaultZero": "C16_NeverCommitted", "CoordKeyAliasing": "C16_Isolation", "CommitUnchecked": "C16_ReadBack",
                         "CoordEscapeFastPath": "C16_Isolation"}),
     "tools": dict(parts=2, pkg="./internal/mcpserver/", target="internal/mcpserver/zz_verif_store_tools_test.go", src="tools_verif_test.go", test="TestVerifStoreToolsReplay",
                   mc="MC_Store_tools_%s.cfg", sim="Sim_Store_tools.cfg", depth=12, num=(25, 100),
-                  devs={"ToolWrites": "C40_Unchanged", "ToolReaps": "C40_Unchanged"}),
+                  devs={"ToolWrites": "C40_Unchanged", "ToolReaps": "C40_Unchanged", "ToolPersistsDefault": "C40_Unchanged", "ToolGroupDefaults": "C40_Unchanged"}),
 }
 # The tree shape the conformance layer validates against: the repaired design (the fix patches of this module are applied in
 # /repo) plus the two recorded etcd list findings, which are part of the tree as it is.
